@@ -93,6 +93,15 @@ add("C17", "proptest-sharded+prefix-enumeration",
     "The harness's own KyTea writer/reader (validated byte-identically on resources/kytea-model.bin) produces structured files with shuffled tries, cut entries, skipped 0x04 letters, 0-8 member dictionaries, tag slots and sub-word dictionaries; the mirror-decoded converted model must equal the reference conversion and predict as RefScore dictates; every proper prefix must give Err (a cut inside the unread tail of a real file may be accepted only with an identical model).",
     "The L/I/R slot order inside dict_vec is pinned from the converter (no KyTea source offline). Arbitrary corrupt files are outside the property.")
 
+add("C13", "proptest-sharded+worker-processes",
+    "property-based testing: differential across one worker process per vaporetto feature subset (7 quick / 48 thorough builds), every build tied to the reference model",
+    "Generated models (with tag models) x texts are sent to worker binaries compiled against each feature subset of {std, cache-type-score, fix-weight-length, tag-prediction, charwise-pma} (+ portable-simd on nightly); every build's scores/boundaries and every tag-capable build's tags and tag scores must equal RefScore/RefTags.",
+    "Workers are rebuilt from /repo by the check script (tools/build_workers.sh). Quick compares 7 subsets, thorough all 48.")
+add("C18", "proptest-sharded in an ASan + debug-assertions build (+ libFuzzer in thorough)",
+    "property-based testing and coverage-guided fuzzing in builds where unchecked preconditions are checked: AddressSanitizer, debug assertions (guards of get_unchecked / is_char_boundary) and the standard library's unsafe-precondition checks",
+    "The generators and oracles of C01/C06/C08/C14/C15/C03/C04 are re-executed in a nightly build with -Zsanitizer=address -C debug-assertions=on; a supervisor turns an abort into a violation with the traced case. Thorough adds a libFuzzer campaign (byte decoder -> same raw generators, oracle in the target).",
+    "Sanitizer sweeps cover the default feature set only; C13 covers all feature subsets without sanitizers. Needs the nightly toolchain of the image.")
+
 PLANNED = {
 }
 
@@ -132,6 +141,12 @@ def main():
             {"name": "proptest-sharded", "path": "/verif/harness/vcommon/src/engine.rs",
              "serves_properties": sorted(CHECKS.keys()),
              "kind_free_text": "proptest 1.11 TestRunner driven from a binary, 8/16 seeded shards, shrinking to a JSON replay file; exhaustive enumerations for small finite sub-spaces"},
+            {"name": "libfuzzer-cargo-fuzz", "path": "/verif/harness/fuzz",
+             "serves_properties": ["C05", "C17", "C18"],
+             "kind_free_text": "cargo-fuzz 0.13 / libFuzzer on nightly with ASan + debug assertions; bytes decoded into the raw generator structures (vcommon::bytes), oracle inside the target; thorough tiers only, fixed -runs"},
+            {"name": "feature-subset-workers", "path": "/verif/harness/vworker",
+             "serves_properties": ["C13"],
+             "kind_free_text": "one transcript worker binary per vaporetto feature subset, length-prefixed stdin/stdout protocol"},
         ],
         "checks": checks,
         "not_applicable": na,
